@@ -88,7 +88,11 @@ type BurstSpec struct {
 	// nothing; B goes on and is held in ITS Read; Start C is made; B is released when C has returned or after
 	// HoldMs; then one more Start. b_starts = A, B, C, the last one.
 	FailingHolder bool `json:"failing_holder,omitempty"`
-	HoldMs        int  `json:"hold_ms,omitempty"`
+	// CtxCancel: the context of the first Start is cancelled right after its store.Read returned (vault wrapper);
+	// Starts-1 more Start calls race with it (0 = a lone Start); then Wait (bounded), one more Start, counts.
+	// Cancelling the context given to Start must not stop or lose the execution: exactly one execution.
+	CtxCancel bool `json:"ctx_cancel,omitempty"`
+	HoldMs    int  `json:"hold_ms,omitempty"`
 }
 
 // heldVault is a storage.Vault (the unexported marker method is promoted from the embedded value) in which the
@@ -99,6 +103,9 @@ type hold struct {
 	held    chan struct{} // closed when a Read sits in this hold
 	release chan struct{}
 	fail    bool
+	// cancelAfter: no delay; the caller's context is cancelled right after the store has answered (a request
+	// deadline that expires while Start is between its store read and the hand-off to the engine)
+	cancelAfter func()
 }
 
 func newHold(fail bool) *hold {
@@ -109,6 +116,12 @@ type heldVault struct {
 	storage.Vault
 	mu    sync.Mutex
 	holds map[uuid.UUID][]*hold // consumed in order by successive Reads of the id
+}
+
+func (h *heldVault) clear(id uuid.UUID) {
+	h.mu.Lock()
+	delete(h.holds, id)
+	h.mu.Unlock()
 }
 
 func (h *heldVault) push(id uuid.UUID, hs ...*hold) {
@@ -125,6 +138,10 @@ func (h *heldVault) Read(ctx context.Context, id uuid.UUID) (*workflow.Plan, err
 	}
 	h.mu.Unlock()
 	p, err := h.Vault.Read(ctx, id) // the store answers now ...
+	if hd != nil && hd.cancelAfter != nil {
+		hd.cancelAfter()
+		return p, err
+	}
 	if hd != nil {
 		close(hd.held)
 		<-hd.release // ... but the answer reaches the caller late
@@ -438,6 +455,18 @@ func (w *world) doOp(op OpSpec) string {
 		rec.id = id
 		w.ids = append(w.ids, rec)
 		return "ok"
+	case "startc":
+		// Start whose context is cancelled right after its store.Read returned; to the model it is a Start
+		ctx, cancel := context.WithCancel(bg)
+		defer cancel()
+		u := w.uuidOf(op.ID)
+		w.hv.push(u, &hold{cancelAfter: cancel})
+		err := w.ws.Start(ctx, u)
+		w.hv.clear(u)
+		if err == nil {
+			w.inflight[op.ID] = true
+		}
+		return errClass(err)
 	case "start":
 		err := w.ws.Start(bg, w.uuidOf(op.ID))
 		if err == nil {
@@ -451,7 +480,7 @@ func (w *world) doOp(op OpSpec) string {
 		// a generous deadline for one store read, after which the call counts as blocked.
 		d := time.Duration(w.spec.IdleMs) * time.Millisecond
 		if op.ID < len(w.ids) && w.inflight[op.ID] {
-			d = 20 * time.Second
+			d = 10 * time.Second
 			if !w.ids[op.ID].open {
 				d = time.Duration(w.spec.ShortMs) * time.Millisecond
 			}
@@ -531,10 +560,8 @@ func newWorld(spec *Spec) (*world, error) {
 		opts = append(opts, coercion.WithMaxSubmit(time.Duration(spec.MaxMs)*time.Millisecond))
 	}
 	var store storage.Vault = v
-	if spec.Burst != nil && (spec.Burst.HeldRead || spec.Burst.FailingHolder) {
-		w.hv = &heldVault{Vault: v, holds: map[uuid.UUID][]*hold{}}
-		store = w.hv
-	}
+	w.hv = &heldVault{Vault: v, holds: map[uuid.UUID][]*hold{}} // passes everything through unless a hold is pushed
+	store = w.hv
 	ws, err := coercion.New(ctx, w.set.Reg, store, opts...)
 	if err != nil {
 		return nil, err
@@ -613,6 +640,47 @@ func childMain() {
 			id = rec.id
 		}
 		burstStartable := b.Target != nil && (b.ViaAPI || specStartable(b.Target, spec.MaxMs, modelNow))
+		if b.CtxCancel {
+			say("READY")
+			say("B 0")
+			n := b.Starts
+			starts := make([]string, n+1)
+			ctxA, cancelA := context.WithCancel(context.Background())
+			w.hv.push(id, &hold{cancelAfter: cancelA})
+			var wg sync.WaitGroup
+			fire := make(chan struct{})
+			for i := 0; i < n; i++ {
+				wg.Add(1)
+				go func(i int) {
+					defer wg.Done()
+					<-fire
+					c := context.Background()
+					if i == 0 {
+						c = ctxA
+					}
+					starts[i] = errClass(w.ws.Start(c, id))
+				}(i)
+			}
+			close(fire)
+			wg.Wait()
+			cancelA()
+			say("S %s", strings.Join(starts[:n], ","))
+			ctx, cancel := context.WithTimeout(context.Background(), 5*time.Second) // the gate is open: a run finishes at once
+			p, err := w.ws.Wait(ctx, id)
+			final := planClass(p, err)
+			cancel()
+			starts[n] = errClass(w.ws.Start(context.Background(), id))
+			say("E 0 burst")
+			say("OPSDONE")
+			time.Sleep(grace)
+			ex := 0
+			if rec != nil {
+				ex = rec.maxCalls()
+			}
+			say("R %s||%d|%s", strings.Join(starts, ","), ex, final)
+			say("DONE")
+			return
+		}
 		if b.FailingHolder {
 			say("READY")
 			say("B 0")
@@ -945,7 +1013,7 @@ func opTerm(op OpSpec, res string) string {
 	switch op.Op {
 	case "submit":
 		return core.Sprintf("(HSubmit %s %s)", core.B(op.Valid), core.B(op.GateOpen))
-	case "start":
+	case "start", "startc":
 		return core.Sprintf("(HStart %d)", op.ID)
 	case "wait":
 		return core.Sprintf("(HWait %d)", op.ID)
@@ -1097,7 +1165,11 @@ func genHist(root *core.Rand, i int, maxLen int, tickCase bool) *Spec {
 			}
 		case 1:
 			id, kind := pickID()
-			s.Ops = append(s.Ops, OpSpec{Op: "start", ID: id, IDKind: kind})
+			opName := "start"
+			if r.Chance(0.25) {
+				opName = "startc"
+			}
+			s.Ops = append(s.Ops, OpSpec{Op: opName, ID: id, IDKind: kind})
 			if kind == "known" {
 				g := ids[id]
 				if g.startable && !g.started && now <= g.subAt+s.MaxMs {
@@ -1204,9 +1276,13 @@ func genStale(root *core.Rand, i int) *Spec {
 	r := root.Fork(uint64(i) + 2_000_000)
 	s := &Spec{Kind: "burst", Index: i, Seed: core.Seed(), MaxMs: defaultMax, GraceMs: 80, ShortMs: 200, StatusMs: 2, IdleMs: 3000, Family: "stale"}
 	b := &BurstSpec{Starts: 1 + r.Range(1, 3), GateOpen: true, HeldRead: true, HoldMs: 300}
-	if i%2 == 1 {
+	switch i % 3 {
+	case 1:
 		b.HeldRead, b.FailingHolder, b.Starts = false, true, 4
 		s.Family = "holder"
+	case 2:
+		b.HeldRead, b.CtxCancel, b.Starts = false, true, r.Range(1, 3)
+		s.Family = "ctxcancel"
 	}
 	kinds := preKinds(s.MaxMs)
 	ps := kinds[r.Intn(3)]
@@ -1241,11 +1317,11 @@ func histCase(s *Spec, o childOut) core.Case {
 				kindHist[op.Op+"/"+op.IDKind]++
 			}
 		}
-		if op.Op == "start" {
+		if op.Op == "start" || op.Op == "startc" {
 			startIDs[op.ID]++
 		}
 		switch op.Op {
-		case "start", "wait", "status", "plan":
+		case "start", "startc", "wait", "status", "plan":
 			calls[op.ID]++
 		}
 	}
@@ -1368,12 +1444,16 @@ func burstCase(s *Spec, o childOut) core.Case {
 		what = "failing-holder/" + what
 		idp = "holder"
 	}
+	if b.CtxCancel {
+		what = "ctx-cancelled-after-read/" + what
+		idp = "ctxcancel"
+	}
 	term := core.Sprintf("(CBurst {| b_max := %s; b_now := %s; b_pl := %s; b_starts := %s; b_others := %s; b_execs := %d; b_final := %s |})",
 		core.Z(s.MaxMs), core.Z(modelNow), plt, tl(starts), tl(others), execs, rterm(final))
 	sorted := append([]string{}, starts...)
 	sort.Strings(sorted)
 	return core.Case{
-		ID: fmt.Sprintf("%s-%d", idp, s.Index), Kind: "burst", Coq: term, Nontrivial: b.Target != nil && b.Starts >= 2,
+		ID: fmt.Sprintf("%s-%d", idp, s.Index), Kind: "burst", Coq: term, Nontrivial: b.Target != nil && (b.Starts >= 2 || b.CtxCancel),
 		Hash: core.Hash(what, strconv.Itoa(b.Starts), strings.Join(b.Others, ","), core.B(b.GateOpen), strings.Join(sorted, ","), final),
 		Dist: map[string]any{"target": what, "starts": b.Starts, "others": b.Others, "gate_open": b.GateOpen, "wall_ms": o.wall.Milliseconds(),
 			"abnormal": o.abnorm},
